@@ -884,6 +884,11 @@ class VerilogOperator(ast.AST):
             assert(len(op) == 1)
             op = op[0]
             
+        if (isinstance(right, list) and len(right) == 1):
+            # the comparator of a Compare node comes wrapped in a list, unwrap it
+            # so that an operator on the right hand side gets its parentheses
+            right = right[0]
+            
         self.left = left
         self.op = self.getOp(op)
         self.right = right
